@@ -36,6 +36,10 @@ func scratch(name string) string {
 
 func main() {
 	a := common.ParseArgs()
+	if a.Extra["child"] != "" {
+		childMain(a) // one real operation, to be killed by the parent (crash.go)
+		return
+	}
 	scratchRoot = os.Getenv("VERIF_SCRATCH")
 	if scratchRoot == "" {
 		fmt.Fprintln(os.Stderr, "VERIF_SCRATCH is not set")
@@ -91,6 +95,18 @@ func main() {
 						out.Line("%s => %s", c.input(), runPs(c))
 					}
 				}
+			case "crash":
+				if suite == "crash" {
+					if c, ok := parseCrashCase(f[2:]); ok {
+						out.Line("%s => %s", c.input(), runCrash(c))
+					}
+				}
+			case "pscrash":
+				if suite == "crash" {
+					if c, ok := parsePsCrashCase(f[2:]); ok {
+						out.Line("%s => %s", c.input(), runPsCrash(c))
+					}
+				}
 			case "psfile":
 				if suite == "ps" {
 					if c, ok := parseFileCase(f[2:]); ok {
@@ -127,6 +143,14 @@ func main() {
 			} else {
 				c := genFileCase(r, k, total)
 				out.Line("%s => %s", c.input(), runFile(c))
+			}
+		case "crash":
+			if k%4 == 3 {
+				c := genPsCrashCase(r, k, total)
+				out.Line("%s => %s", c.input(), runPsCrash(c))
+			} else {
+				c := genCrashCase(r, k, total)
+				out.Line("%s => %s", c.input(), runCrash(c))
 			}
 		default:
 			fmt.Fprintln(os.Stderr, "unknown -suite", suite)
